@@ -154,3 +154,81 @@ def _register_jump_graph():
 
 
 _register_jump_graph()
+
+
+# --------------------------------------------------------------------------------------------------
+# The relaxation (fix-point) loop of blocks_to_bytes on jump graphs of bounded *shape* but unbounded *distances*:
+# a run of k NOPs is one pseudo-instruction whose width override is the symbolic k.
+
+def relax_fragment():
+    def build():
+        import ast
+        src = rewrite.Source.of(B)
+        fn = src.get_def("blocks_to_bytes")
+        loop = rewrite.find_stmt(fn, lambda n, t: isinstance(n, ast.While) and ast.unparse(n.test) == "changed_instruction_lengths", "while changed_instruction_lengths: [relaxation loop]")
+        ret = ast.parse("return (args, block_index_to_instruction_offset)").body[0]
+        pre = ast.parse("changed_instruction_lengths = True").body[0]
+        frag = rewrite.make_function("relax_fragment", ["blocks", "args", "block_index_to_instruction_offset", "block_type", "freevars", "names", "varnames", "cellvars", "constants"],
+                                     [loop, ret], B.__name__, "blocks_to_bytes", "the `while changed_instruction_lengths` loop; free variables become parameters")
+        frag.body.insert(0, pre)
+        import ast as _a
+        _a.copy_location(pre, loop)
+        for n in _a.walk(pre):
+            if hasattr(n, "lineno"):
+                n.lineno = n.end_lineno = loop.lineno
+        return frag
+    return cached("relax_fragment", build)
+
+
+def _register_relax():
+    shapes = {
+        "back+fwd-abs": [[("pad", 0), ("jump", 1, False)], [("pad", 1), ("jump", 0, False)], [("pad", 2)]],
+        "fwd-rel+back-abs": [[("pad", 0), ("jump", 2, True)], [("pad", 1), ("jump", 0, False)], [("pad", 2)]],
+        "two-fwd": [[("jump", 2, False), ("pad", 0), ("jump", 1, True)], [("pad", 1)], [("pad", 2)]],
+        "loop-in-if": [[("jump", 2, False), ("pad", 0)], [("pad", 1), ("jump", 1, False), ("jump", 2, True)], [("pad", 2)]],
+    }
+    for name, shape in shapes.items():
+        def h(ctx, cfg, name=name, shape=shape):
+            import copy as _copy
+            frag = relax_fragment()
+            ns = rewrite.compile_defs(B, [_copy.deepcopy(frag)], {}, "blocks_to_bytes:relaxation")
+            pads = [ctx.input("pad%d" % k, SymInt.fresh("pad%d" % k)) for k in range(3)]
+            for p_ in pads:
+                ctx.assume(z3.And(p_.z >= 1, p_.z <= 2 ** 24), "pre: at least one padding unit; code size within a C int")
+            blocks, args = [], {}
+            for bi, b in enumerate(shape):
+                row = []
+                for ii, it in enumerate(b):
+                    if it[0] == "pad":
+                        row.append(Instruction("NOP", NoArg(), _n_args_override=pads[it[1]]))
+                        args[bi, ii] = 0
+                    else:
+                        row.append(Instruction("JUMP", Jump(it[1], it[2])))
+                        args[bi, ii] = 1            # from_arg's contract for a Jump
+                blocks.append(tuple(row))
+            out_args, offs = ns["relax_fragment"](tuple(blocks), args, {}, None, (), None, None, None, None)
+            size = B._instrsize
+            mult = 1 if cfg.atleast_310 else 2
+            # recompute the layout from the final operands
+            cur, first, ends = 0, {}, {}
+            for bi, b in enumerate(blocks):
+                first[bi] = cur
+                for ii, ins in enumerate(b):
+                    n = ins._n_args_override if ins._n_args_override is not None else size(out_args[bi, ii])
+                    cur = cur + n
+                    ends[bi, ii] = cur
+            for bi, b in enumerate(blocks):
+                ctx.prove("post.recorded_block_offset_is_the_final_layout", Z(offs[bi]) == Z(first[bi]))
+                for ii, ins in enumerate(b):
+                    if isinstance(ins.arg, Jump):
+                        a = out_args[bi, ii]
+                        want = (Z(first[ins.arg.target]) - Z(ends[bi, ii])) * mult if ins.arg.relative else Z(first[ins.arg.target]) * mult
+                        ctx.prove("post.jump_operand_matches_the_final_layout(fix-point reached)", Z(a) == want)
+                        ctx.prove("post.jump_operand_non_negative", Z(a) >= 0)
+        harness("blocks.relaxation_loop.fixpoint[%s]" % name, props=["C03", "C05", "C06", "C01"], functions=["code_data._blocks.blocks_to_bytes", "code_data._blocks._instrsize"], configs="all",
+                engine="E2", cost=20,
+                notes="bounded shape (three blocks, the jumps of shape `%s`), UNBOUNDED distances: every run of NOPs is a pseudo-instruction of symbolic width 1..2^24. On every path the real loop "
+                      "terminates and every jump operand equals the operand implied by the final layout for the width it is emitted with" % name)(h)
+
+
+_register_relax()
